@@ -177,6 +177,8 @@ func (in *Interp) tryMerge(fr *frame, b *ssa.BasicBlock, c *Term) (join *ssa.Bas
 				panic(&specAbort{"loop back edge"})
 			}
 			var next *ssa.BasicBlock
+			sf.phiDone = nil
+			in.parallelPhis(sf, x)
 			for _, instr := range x.Instrs {
 				budget--
 				in.steps++
